@@ -1421,6 +1421,8 @@ class XMLSchemaBase(XsdValidator, ElementPathMixin[Union[SchemaType, XsdElement]
             selector = context.source.iterfind(path, context.namespaces)
         else:
             selector = context.source.iter_depth(mode=2)
+            if context.source.is_lazy():
+                context.level = context.source.lazy_depth  # not root elements
 
         for elem in selector:
             xsd_element = self.get_element(elem.tag, schema_path, context.namespaces)
@@ -1430,6 +1432,9 @@ class XMLSchemaBase(XsdValidator, ElementPathMixin[Union[SchemaType, XsdElement]
                 else:
                     yield context.missing_element_error(validation, self, elem, path, schema_path)
                     continue
+
+            if context.level:
+                context.converter.set_xmlns_context(elem, context.level)
 
             result = xsd_element.raw_decode(elem, validation, context)
             if context.errors:
